@@ -92,6 +92,8 @@ class Lab:
         self.effects = Run()
         eff = _effects(self.effects)
         self.analysed: list = []
+        self.calls: list = []          # (function, arguments) of lex / scan_file / CheckResult.add in deep mode
+        self.measured = None
         self.spec_roots: list = []
         self.excl_args: list = []
         self.walked: list = []
@@ -120,13 +122,25 @@ class Lab:
                 if q.endswith(":calculate_checksum"):
                     return "sum:" + self.vfs.abs(sval(args[0]))
                 if q.endswith(":lex") and "lexer_utils" in q:
-                    return []
+                    bound = dict(zip(f.fi.params(), args))
+                    bound.update(kwargs)
+                    if "filter_comments" not in bound:
+                        d = f.fi.param_default("filter_comments")
+                        bound["filter_comments"] = it.ev(d, {}, f.fi) if d is not None else None
+                    toks = [Sym("tokens-of:" + str(bound.get("code"))[:40])]
+                    self.calls.append(("lex", bound, toks))
+                    return toks
                 if q.endswith(":scan_file"):
                     if self.deep:
+                        self.calls.append(("scan_file", list(args), dict(kwargs)))
+                        if self.measured is not None:
+                            return list(self.measured)
                         m1 = Sym("measurement", unit_name="f", value=40, start=Sym("loc", line=1, column=1), end=Sym("loc", line=41, column=1))
                         m2 = Sym("measurement", unit_name="g", value=7, start=Sym("loc", line=50, column=1), end=Sym("loc", line=57, column=1))
                         return [m1, m2]
                     return []
+                if q.endswith("CheckResult.add") and self.deep:
+                    self.calls.append(("add", list(args), dict(kwargs)))
                 if (q.endswith("CheckResult.report") or q.endswith("CheckResult.add")) and not self.deep:
                     return None
             if isinstance(f, tuple) and f and f[0] == "external":
@@ -292,3 +306,20 @@ def checksum_eval(prj: Project):
     vfs.bytes["/r/big.py"] = c2
     d2 = it.call(fi, ["/r/big.py"], {})
     return d1, hashlib.md5(c1).hexdigest(), d2, hashlib.md5(c2).hexdigest()
+
+
+def pipelines(prj: Project):
+    """the same file (invalid UTF-8) through scan (scan_path) and through check (check_command): what lex and scan_file are
+    handed and, for check, what CheckResult.add receives when the measuring stub returns lengths 31, 7, 64, 30, 31"""
+    ms = [Sym("measurement", unit_name=f"f{i}", value=v, start=Sym("loc", line=10 * i + 1, column=1), end=Sym("loc", line=10 * i + 9, column=1))
+          for i, v in enumerate((31, 7, 64, 30, 31))]
+    tree = {"/w": (["proj"], []), "/w/proj": ([], ["a.py"])}
+    out = {}
+    for name, q, args in (("scan", "codelimit.common.Scanner:scan_path", [PathV(ROOT)]),
+                          ("check", "codelimit.commands.check:check_command", [[PathV("a.py")], True])):
+        lab = Lab(prj, ROOT, deep=True, undecodable=True)
+        lab.vfs.tree = tree
+        lab.measured = ms
+        lab.run(q, args)
+        out[name] = lab
+    return out, ms
